@@ -336,6 +336,8 @@ def o4(W, ob):
              'confirmed_frame() is not a min over `!disconnected` entries', where(c))
 
 
+from . import helpers
+
 OBLIGATIONS = [
     ('C03.O1', 'status constructors', 'Predicted only from InputQueue::input (sticky prediction = predictor(newest real '
      'input) or default); Confirmed carries the stored input behind the frame equality; Disconnected carries the default.', o1),
@@ -347,4 +349,5 @@ OBLIGATIONS = [
     ('C03.O4', 'last_frame provenance', 'local_connect_status[..].last_frame is stored only from inserted local inputs, '
      'inserted fills, and sequential remote inputs of connected players (paired with add_remote_input); confirmed_frame() '
      'is a min over connected players.', o4),
+    ('C03.H', 'helpers the rules above rely on', 'the bodies of the helpers named by this property\'s rules compute what the rules assume (prev_pos, add_input, player_input, confirmed_input); see rules/helpers.py', helpers.bundle('prev_pos', 'add_input', 'player_input', 'confirmed_input')),
 ]
